@@ -6,6 +6,7 @@ import (
 	"path/filepath"
 	"strings"
 	"unicode"
+	"unicode/utf8"
 )
 
 // ---------------------------------------------------------------- AST of the contract language
@@ -220,6 +221,31 @@ func lex(src string) ([]tok, error) {
 			}
 			out = append(out, tok{"int", strings.ReplaceAll(src[i:j], "_", ""), i})
 			i = j
+		case c == '\'': // rune literal: 'x', '\'', '\\', '\n', '\t', '\r'
+			j := i + 1
+			var r rune
+			if j < len(src) && src[j] == '\\' && j+1 < len(src) {
+				switch src[j+1] {
+				case 'n':
+					r = '\n'
+				case 't':
+					r = '\t'
+				case 'r':
+					r = '\r'
+				default:
+					r = rune(src[j+1])
+				}
+				j += 2
+			} else {
+				rr, sz := utf8.DecodeRuneInString(src[j:])
+				r = rr
+				j += sz
+			}
+			if j >= len(src) || src[j] != '\'' {
+				return nil, fmt.Errorf("bad rune literal at %d", i)
+			}
+			out = append(out, tok{"int", fmt.Sprint(int(r)), i})
+			i = j + 1
 		case c == '"':
 			j := i + 1
 			for j < len(src) && src[j] != '"' {
